@@ -1,47 +1,8 @@
 (* driver.ml — runs the extracted model (Model) on cases read from stdin, one per line,
-   and prints one canonical result line per case.  Parsing and printing only. *)
+   and prints one canonical result line per case.  Parsing and printing only.
+   Command modules cmd_*.ml contribute further commands through their [commands] lists. *)
 open Model
-
-(* ---------- conversions ---------- *)
-let rec pos_of_int (i : int) : positive =
-  if i = 1 then XH else if i land 1 = 0 then XO (pos_of_int (i lsr 1)) else XI (pos_of_int (i lsr 1))
-let n_of_int (i : int) : n = if i = 0 then N0 else Npos (pos_of_int i)
-let rec int_of_pos = function XH -> 1 | XO p -> 2 * int_of_pos p | XI p -> 2 * int_of_pos p + 1
-let int_of_n = function N0 -> 0 | Npos p -> int_of_pos p
-
-let n10 = n_of_int 10
-(* decimal string <-> N, for values beyond OCaml's 63-bit ints *)
-let n_of_dec (s : string) : n =
-  let acc = ref N0 in
-  String.iter (fun c -> acc := N.add (N.mul !acc n10) (n_of_int (Char.code c - 48))) s;
-  !acc
-let dec_of_n (x : n) : string =
-  if x = N0 then "0" else begin
-    let b = Buffer.create 24 in
-    let rec go x = if x = N0 then () else begin
-      go (N.div x n10); Buffer.add_char b (Char.chr (48 + int_of_n (N.modulo x n10))) end in
-    go x; Buffer.contents b end
-
-let rec nat_of_int (i : int) : nat = if i = 0 then O else S (nat_of_int (i - 1))
-
-let hexval c = match c with
-  | '0'..'9' -> Char.code c - 48 | 'a'..'f' -> Char.code c - 87 | 'A'..'F' -> Char.code c - 55
-  | _ -> failwith "bad hex"
-(* "-" denotes the empty byte string *)
-let bytes_of_hex (s : string) : n list =
-  if s = "-" then [] else
-  let l = String.length s / 2 in
-  List.init l (fun i -> n_of_int (hexval s.[2*i] * 16 + hexval s.[2*i+1]))
-let hex_of_bytes (bs : n list) : string =
-  if bs = [] then "-" else String.concat "" (List.map (fun b -> Printf.sprintf "%02x" (int_of_n b)) bs)
-
-(* strings travel as hex of their UTF-8 bytes; the model works on scalar values, the
-   conversion is the model's own codec *)
-let str_of_hex (s : string) : n list option = utf8_decode (bytes_of_hex s)
-let hex_of_str (s : n list) : string = hex_of_bytes (utf8_encode s)
-
-let split_ws (s : string) : string list =
-  List.filter (fun x -> x <> "") (String.split_on_char ' ' s)
+open Util
 
 (* ---------- per-property commands ---------- *)
 let cmd_sanitize line =
@@ -232,7 +193,7 @@ let commands : (string * (string -> string)) list = [
   "accept_c14", cmd_accept_c14;
   "walkey", cmd_walkey;
   "engine", cmd_engine;
-]
+] @ Cmd_frame.commands @ Cmd_meta.commands
 
 let () =
   let cmd = Sys.argv.(1) in
